@@ -20,7 +20,7 @@ PROP = {
     "hooks": ["oracle"],
     "trusted_base": TRUSTED_COMMON + lc.TRUSTED_LEDGER,
     "assumptions": ["a single injected failure per run: the k-th fallible step (allocation, element default/copy/move construction, element copy/move assignment) of the whole history throws",
-                    "element type: the instrumented class type; allocator: all 16 trait configurations and std::pmr; zero-based extents; D = 1..3, and array<T,0> (about 7% of the programs; non-propagating allocators in the three select_on_container_copy_construction modes, std::pmr; int and Semi elements in the trivial modes) with the forms whose code mirrors the D >= 1 code of the model: construction from extensions / from an element, copy construction, copy assignment, assignment of an element, destruction; move construction and move assignment of a 0-D array (element-wise, source stays alive) are not exercised",
+                    "element type: the instrumented class type; allocator: all 16 trait configurations and std::pmr; zero-based extents; D = 1..3, and array<T,0> (about 7% of the programs; non-propagating allocators in the three select_on_container_copy_construction modes, std::pmr; int and Semi elements in the trivial modes) with the forms whose code mirrors the D >= 1 code of the model: construction from extensions / from an element, copy construction, copy assignment, assignment of an element, destruction; move construction and move assignment of a 0-D array (element-wise, source stays alive) are not exercised; the theorems assume 1 <= D (Cfg.OK), so for D = 0 the model is the executable reference of the correspondence only (validated, not proved)",
                     "after an array has been left in an invalid state only destructors are run (everything else is undefined behaviour)"],
     "rule": lc.RULE,
     "level_text": ("Theorems (every configuration, every pool satisfying the invariant, every operation, every injection point k): `fault_safe` — if the step raises, the exception reaches the caller "
